@@ -418,12 +418,12 @@ def value_check(pid, tier_, plan, kbits=14, rule='', extra_execs=(), all_known=F
             execs.append(gen.gen_values(rng, sol, precs=('ld',), nassign=2, npts=1, evaluators=evs, wide=True))
             execs[-1].label = 'wide:%s' % sol
     # ties: two parameters of the same kind exactly equal (all similar-name pairs of a solution with at most 80 of them, a
-    # systematic third of them otherwise; all in the thorough tier)
+    # systematic third of them -- chosen by the seed -- otherwise, in both tiers)
     for sol, evs, na, npt in (plan if zeros else []):
         if gen.purity_picker(sol) is gen.around_default or sol in ('sod_1d', 'cp_normal', 'navierstokes_4d_compressible_powerlaw'):
             continue
         prs = gen.similar_pairs(sol)
-        if len(prs) > 80 and tier_ == 'quick':
+        if len(prs) > 80:
             prs = prs[(seed() % 3)::3]
         tp = [[pr] for pr in prs]
         for i in range(0, len(tp), 6):
